@@ -452,6 +452,7 @@ func runC20Registry(r *Run, which string) {
 		v    float64
 	}
 	var sents []sent
+	var sentTags [][2]string // (registration tag, sample tag) per sent sample
 	if two {
 		ctl2 = s.Go("controller2", func(tk *Task) {
 			for _, a := range acts2 {
@@ -529,16 +530,20 @@ func runC20Registry(r *Run, which string) {
 			case 4:
 				tk.Begin("AddSample", a.id)
 				var l core.MetricSampleListener
+				// every registration carries a tag of its own (like the partitions of a strategy, which share one ID), every
+				// sample a tag that identifies it on the wire
+				regTag, sampleTag := fmt.Sprintf("reg:%d", ai), fmt.Sprintf("s:%d", ai)
 				switch a.sk {
 				case 0:
-					l = reg.RegisterDistribution(a.id)
+					l = reg.RegisterDistribution(a.id, regTag)
 				case 1:
-					l = reg.RegisterTiming(a.id)
+					l = reg.RegisterTiming(a.id, regTag)
 				default:
-					l = reg.RegisterCount(a.id)
+					l = reg.RegisterCount(a.id, regTag)
 				}
-				l.AddSample(a.v)
+				l.AddSample(a.v, sampleTag)
 				sents = append(sents, sent{a.sk, strings.TrimPrefix(a.id, "."), a.v})
+				sentTags = append(sentTags, [2]string{regTag, sampleTag})
 				tk.End(nil)
 			}
 		}
@@ -681,6 +686,20 @@ func runC20Registry(r *Run, which string) {
 			if !strings.Contains(lines, want1) && !strings.Contains(lines, want2) {
 				r.Fail("sample-not-forwarded", which+"/"+suffix[1:], "sample %v of %q (kind %s) not found on the wire as %q; wire:\n%s", sn.v, sn.id, suffix, want1, truncate(lines, 600))
 				return
+			}
+		}
+		// a sample sent through the listener of one registration never carries the tags of another registration
+		for _, tg := range sentTags {
+			for _, ln := range strings.Split(lines, "\n") {
+				if !strings.Contains(ln, tg[1]+",") && !strings.HasSuffix(ln, tg[1]) {
+					continue
+				}
+				for _, part := range strings.FieldsFunc(ln, func(c rune) bool { return c == ',' || c == '#' || c == '|' }) {
+					if strings.HasPrefix(part, "reg:") && part != tg[0] {
+						r.Fail("sample-with-foreign-tags", which, "the sample tagged %q was sent through the listener registered with %q but went out as %q", tg[1], tg[0], ln)
+						return
+					}
+				}
 			}
 		}
 		if noValueGauge && strings.Contains(lines, effPrefix+"novalue:") {
